@@ -135,7 +135,9 @@ func NewPositionRange(lines []string, val *yaml.Node, minColumn int) (offsets Po
 
 	NEXT:
 		lineIndex++
-		columnIndex = minColumn
+		// continuation lines may be indented less than minColumn; the leading-space correction below finds the
+		// first character of the line from column 1 just as well
+		columnIndex = 1
 
 		if need == ' ' || need == '\n' {
 			needIndex++
